@@ -531,6 +531,8 @@ def eio_message_contract(world, target):
     dispatch_cases.append(Case('binary-header', when=is_bin_hdr, post=header_stored))
     dispatch_cases.append(Case('binary-header.undecodable', when=is_bin_hdr, kind='raise', exc='Exception', post=rejected))
     dispatch_cases.append(Case('unexpected-type-or-undecodable', when=bad_type, kind='raise', exc='Exception', post=rejected))
+    dispatch_cases.append(Case('unexpected-type.accepted', when=bad_type, forbid=True))
+    dispatch_cases.append(Case('attachment.unexpected.accepted', when=lambda c: z3.And(buffering(c), count(c) <= n_att(c)), forbid=True))
 
     return Contract(
         target=target, schema=world, self_obj='server', params={'eio_sid': 'V', 'data': 'V'},
